@@ -25,7 +25,9 @@ SampCases == {[fam |-> "samples", y |-> [i \in 1..n |-> ((i * i + 3 * i) % 7) - 
         \cup {[fam |-> "samples", y |-> [i \in 1..n |-> ((i * i + 3 * i) % 7) - 3], x |-> <<>>, dx |-> d] : n \in {2, 3, 8, 64}, d \in {0, 1, 3}}
         \* non-uniform grids whose first spacing equals the mean spacing, and grids that are uniform except for one interval
         \cup {[fam |-> "samples", y |-> [i \in 1..Len(x) |-> ((i * i + 3 * i) % 7) - 3], x |-> x, dx |-> 0] :
-                 x \in {<<0, 4, 6, 12>>, <<0, 8, 9, 10, 32>>, <<0 - 8, 0, 4, 20, 24>>, <<0, 4, 8, 12, 14>>, <<0, 2, 6, 10, 14>>, <<3, 7, 11, 19, 19 + 4>>}}
+                 x \in {<<0, 4, 6, 12>>, <<0, 8, 9, 10, 32>>, <<0 - 8, 0, 4, 20, 24>>, <<0, 4, 8, 12, 14>>, <<0, 2, 6, 10, 14>>, <<3, 7, 11, 19, 19 + 4>>,
+                        \* repeated abscissae: zero-width panels across which the ordinate jumps (step functions sampled on both sides)
+                        <<0, 4, 4, 8>>, <<0, 0, 4>>, <<0, 4, 8, 8>>, <<2, 2, 2, 6, 6, 10>>, <<0 - 4, 0, 0, 0, 4, 12, 12>>}}
 
 Init == c \in TrapzCases \cup RombCases \cup GaussCases \cup SampCases
 Next == UNCHANGED c
